@@ -1,1 +1,107 @@
-From CMinx Require Import Base.Str.
+(* Properties/C06.v -- Unreadable input fails loudly, never silently truncated.
+   Only theorem statements; proofs are in Proofs/LexerFacts.v, ParserFacts.v, PipelineFacts.v and
+   WalkFacts.v.  Model: Model/Lexer.v (longest match over the 15 rules of CMake.g4; a position
+   where no rule matches is an error), Model/Parser.v, Model/Pipeline.v, Model/Walk.v. *)
+From Coq Require Import String List NArith Arith.
+From CMinx Require Import Base.Str Model.Lexer Model.Parser Model.Aggregator Model.Pipeline
+     Model.Naming Model.Walk
+     Proofs.LexerFacts Proofs.ParserFacts Proofs.PipelineFacts Proofs.WalkFacts.
+Import ListNotations.
+
+(* no source character is skipped: the pieces (tokens, whitespace, comments) concatenate to the source *)
+Theorem C06_lex_accounts_for_every_char :
+  forall x ps, lex_all x = LexOk ps -> concat (map snd ps) = x.
+Proof. exact lex_all_concat. Qed.
+Print Assumptions C06_lex_accounts_for_every_char.
+
+(* the fuel of the lexer loop is never exhausted: the error result only ever means no rule matches *)
+Theorem C06_lex_fuel_sufficient :
+  forall f x pos, length x <= f -> lex_all_go f pos x = lex_all_go (length x) pos x.
+Proof. exact lex_all_go_fuel. Qed.
+Print Assumptions C06_lex_fuel_sufficient.
+
+(* every visible token is in the parse tree, in order, parentheses balanced by construction:
+   parsing is a bijection between accepted token sequences and well-formed trees *)
+Theorem C06_parse_accounts_for_every_token :
+  forall ts f, Forall tok_canon ts -> parse ts = Some f -> unparse_file f = ts.
+Proof. exact parse_unparse. Qed.
+Print Assumptions C06_parse_accounts_for_every_token.
+
+Theorem C06_parse_bijection :
+  (forall ts f, Forall tok_canon ts -> parse ts = Some f -> wf_file f = true /\ unparse_file f = ts)
+  /\ (forall f, wf_file f = true -> Forall tok_canon (unparse_file f) /\ parse (unparse_file f) = Some f).
+Proof. exact parse_bijection. Qed.
+Print Assumptions C06_parse_bijection.
+
+(* a page is only ever computed from the whole file *)
+Theorem C06_ok_only_from_whole_file :
+  forall fl trigger strip_fn strip_mac strip_mem hdrs title m src r,
+    document_str fl trigger strip_fn strip_mac strip_mem hdrs title m src = OOk r ->
+    exists ps f st,
+      lex_all src = LexOk ps /\ concat (map snd ps) = src
+      /\ parse (visible ps) = Some f /\ unparse_file f = visible ps
+      /\ aggregate fl trigger strip_fn strip_mac strip_mem f = Ok st
+      /\ r = render_page hdrs title m (documented st).
+Proof. exact ok_only_from_whole_file. Qed.
+Print Assumptions C06_ok_only_from_whole_file.
+
+(* the faults of the property, wherever the lexer reaches them (for every flag vector) *)
+Theorem C06_stuck_is_error :
+  forall fl trigger strip_fn strip_mac strip_mem hdrs title m src ps rest,
+    reaches src ps rest -> rest <> [] -> best rest = None ->
+    document_str fl trigger strip_fn strip_mac strip_mem hdrs title m src = OLexErr.
+Proof. exact stuck_is_error. Qed.
+Print Assumptions C06_stuck_is_error.
+
+Theorem C06_unterminated_quote_fails :
+  forall fl trigger strip_fn strip_mac strip_mem hdrs title m src ps r,
+    reaches src ps (dq :: r) -> quoted_body r = None ->
+    document_str fl trigger strip_fn strip_mac strip_mem hdrs title m src = OLexErr.
+Proof. exact unterminated_quote_fails. Qed.
+Print Assumptions C06_unterminated_quote_fails.
+
+Theorem C06_invalid_escape_fails :
+  forall fl trigger strip_fn strip_mac strip_mem hdrs title m src ps r,
+    reaches src ps (bsl :: r) ->
+    (match r with [] => true | b :: _ => negb (esc_ok b) end) = true ->
+    document_str fl trigger strip_fn strip_mac strip_mem hdrs title m src = OLexErr.
+Proof. exact invalid_escape_fails. Qed.
+Print Assumptions C06_invalid_escape_fails.
+
+Theorem C06_unterminated_bracket_comment_fails :
+  forall fl trigger strip_fn strip_mac strip_mem hdrs title m src ps r,
+    reaches src ps (hash :: r) ->
+    opens_bracket (take_while (fun c => negb (is_eol c)) r) = true ->
+    m_bracket_arg r = None ->
+    startswith doc_open (hash :: r) = false ->
+    document_str fl trigger strip_fn strip_mac strip_mem hdrs title m src = OLexErr.
+Proof. exact unterminated_bracket_comment_fails. Qed.
+Print Assumptions C06_unterminated_bracket_comment_fails.
+
+(* unbalanced parentheses / stray text: a token sequence outside the grammar is the parser error *)
+Theorem C06_rejected_tokens_fail :
+  forall fl trigger strip_fn strip_mac strip_mem hdrs title m src ts,
+    lex src = LexOk ts -> parse ts = None ->
+    document_str fl trigger strip_fn strip_mac strip_mem hdrs title m src = OParseErr.
+Proof. exact rejected_tokens_fail. Qed.
+Print Assumptions C06_rejected_tokens_fail.
+
+(* I/O level: a file that does not document writes nothing, prints nothing; the run ends in the abort *)
+Theorem C06_failed_file_writes_nothing :
+  forall st hdrs docfn excl base content title modname o,
+    excl [] false = false ->
+    (title, modname) = header_and_module (ws_prefix st) (ws_sep st) (ws_ext_titles st)
+                                         (ws_ext_modules st) base ->
+    docfn title modname content = o -> (forall t, o <> OOk t) ->
+    document st hdrs docfn excl base (KFile content)
+    = (if ws_out st then [AMkDirs []] else []) ++ [AAbort o]
+    /\ write_paths (document st hdrs docfn excl base (KFile content)) = []
+    /\ prints (document st hdrs docfn excl base (KFile content)) = [].
+Proof. exact failed_file_aborts_run. Qed.
+Print Assumptions C06_failed_file_writes_nothing.
+
+Theorem C06_nothing_after_abort :
+  forall st hdrs docfn excl base kind l1 a l2,
+    document st hdrs docfn excl base kind = l1 ++ a :: l2 -> is_stop a = true -> l2 = [].
+Proof. exact nothing_after_abort. Qed.
+Print Assumptions C06_nothing_after_abort.
